@@ -80,24 +80,38 @@ def r2(fx):
                      want=f'{bad[3]}' if bad else 'highest fitting level')
 
 
-@rule('C05', 'R4', 4, '_encode: boosts only under `boost_error`, assigns only `error`, with the search\'s length measure')
+@rule('C05', 'R4', 20, '_encode: the level booster is consulted exactly when `boost_error` is set - for every version class and level -, with (version, level, the segments, eci, Structured Append in use), and its answer is the level used from then on')
 def r4(fx):
+    from .models import trace_encode, SAModel
     enc = fx.fn('encoder', '_encode')
-    boost = single([s for s in enc.body if isinstance(s, ast.If) and 'boost_error_level' in ast.unparse(s)], 'boost block')
-    yield ob('boost under the flag only', pat.slot(boost.test, ['boost_error'], 'boost guard') and not boost.orelse, boost,
-             got=ast.unparse(boost.test), want='boost_error')
-    a = single(boost.body, 'statement in the boost block')
-    b = pat.need(a, 'error = boost_error_level(version, error, segments, eci, is_sa=H_sa)', 'boost call', mode='stmt')
-    yield ob('error = boost_error_level(version, error, segments, eci, is_sa=<Structured Append in use>)', nf.same_inlined(enc, b['sa'], 'sa_info is not None'),
-             a, got=ast.unparse(a), want='is_sa=(sa_info is not None)')
-    calls = [c for c in src.calls_in(enc, 'boost_error_level')]
-    yield ob('single boost site', len(calls) == 1, enc, got=len(calls), want=1)
-    # measure: boost_error_level calls segments.bit_length_with_overhead(version, eci, is_sa=is_sa)
-    bf = fx.fn('encoder', 'boost_error_level')
-    c = single([x for x in src.calls_in(bf, 'bit_length_with_overhead')], 'length measure in boost_error_level')
-    bb = pat.need(c, 'segments.bit_length_with_overhead(version, eci, is_sa=is_sa)', 'length measure')
-    yield ob('boost measures with bit_length_with_overhead(version, eci, is_sa)', bb is not None, c, got=ast.unparse(c),
-             want='segments.bit_length_with_overhead(version, eci, is_sa=is_sa)')
+    lv, mv = levels(fx), micro_versions(fx)
+    for v, level, boosted in ((-3, None, None), (-2, 'L', 'M'), (-1, 'M', 'M'), (0, 'L', 'Q'), (0, 'M', 'Q'), (0, 'Q', 'Q'), (1, 'L', 'H'), (5, 'M', 'Q'), (40, 'H', 'H'), (7, 'Q', 'H')):
+        rv = mv[v] if v < 1 else v
+        for flag in (True, False):
+            for eci, sa in ((False, None), (True, SAModel((3, 0, 1, 7)))) if v >= 1 else ((False, None),):
+                rec, res, info = trace_encode(fx, rv, level, boosted, eci=eci, sa_info=sa, boost_error=flag)
+                calls = [r for r in rec if r[0] == 'boost_error_level']
+                fin = [r for r in rec if r[0] == 'make_final_message']
+                want_level = (None if boosted is None else lv[boosted]) if flag else (None if level is None else lv[level])
+                probs = []
+                if flag and boosted != level and len(calls) != 1:
+                    probs.append(f'{len(calls)} consultations of the level booster')
+                if len(calls) > 1:
+                    probs.append(f'{len(calls)} consultations of the level booster')
+                if not flag and calls:
+                    probs.append('level booster consulted although boost_error is off')
+                if flag and calls:
+                    a, k = calls[0][1], calls[0][2]
+                    is_sa = (list(a[4:]) + [k.get('is_sa', False)])[0]
+                    if tuple(a[:2]) != (rv, None if level is None else lv[level]) or a[2] is not info['segments'] or a[3] is not eci or bool(is_sa) != (sa is not None):
+                        probs.append(f'booster called with {a[:2]}, eci={a[3]}, is_sa={is_sa}')
+                if not fin or tuple(fin[0][1][:2]) != (rv, want_level):
+                    probs.append(f'final message built for {fin[0][1][:2] if fin else None}, expected ({rv}, {want_level})')
+                code = [r for r in rec if r[0] == 'Code']
+                if not code or code[0][1][2] != want_level:
+                    probs.append(f'Code carries level {code[0][1][2] if code else None}')
+                yield ob(f'v{v} level {level} boost_error={flag} eci={eci} sa={sa is not None}', not probs, enc, got='; '.join(probs) or 'as required', want='as required')
+    # measure: boost_error_level asks the segments for their bit count in that version with the same eci / is_sa (C05.R2 records the arguments)
 
 
 @rule('C05', 'R5', 30, 'encode: default level L (none for M1), H refused for Micro, boost flag and level passed through')
